@@ -99,12 +99,12 @@ def main(tier_):
                                       sched=[dict(call=0, k=k, acts=[a, grow])], meta=dict(tree=tname, call=call, acts=[a, grow], ks=[k], prio=1)))
     stats["sweep_space"] = len(sweep)
     if quick:
-        prio = [c for c in sweep if c["meta"].get("prio") and c["meta"]["acts"][0]["act"] == "rename"]
+        prio = [c for c in sweep if c["meta"].get("prio")]
         pid_ = {c["id"] for c in prio}
         rest = [c for c in sweep if c["id"] not in pid_]
         rnd.shuffle(prio)
         rnd.shuffle(rest)
-        sweep = prio[:2500] + rest[:800]
+        sweep = prio[:4000] + rest[:500]
     cases = static_cases + sweep
     cases.sort(key=lambda c: json.dumps(c["feat"]))
     results = run_pv(cases, jobs=12, tag="C03")
